@@ -193,7 +193,8 @@ def run_case(case, H):
             key = (j[0], j[1])
             T = json.dumps(j[2])
             if var_types.setdefault(key, T) != T:
-                problems.append(('variable-at-two-types', '%s used at %s and %s' % (j[1], var_types[key], T)))
+                problems.append(('annotation-contradicts-declared-type' if (j[0] == 'v' and j[1] in ctx) else 'variable-at-two-types',
+                                 '%s used at %s and %s' % (j[1], var_types[key], T)))
             if j[0] == 'v' and j[1] in ctx:
                 pass
         if j[0] in ('v', 'sv', 'c') and has_internal(j[2]):
